@@ -34,25 +34,34 @@ def thresholder_consumers():
     from kaira.models.binary import soft_bit_thresholding as T
     from kaira.models.fec import utils as FU
 
-    LLR = T.InputType.LLR
+    cons = {}
+    # the input type is given as the enum member and as the documented string form ('llr')
+    for LLR, sfx in ((T.InputType.LLR, ""), ("llr", ",str")):
+        cons.update(_thresholders(T, FU, torch, LLR, sfx))
+    return cons
+
+
+def _thresholders(T, FU, torch, LLR, sfx):
     cons = {
-        "FixedThresholder(llr)": lambda: T.FixedThresholder(threshold=0.0, input_type=LLR),
-        "AdaptiveThresholder(llr,mean)": lambda: T.AdaptiveThresholder(method="mean", input_type=LLR),
+        "FixedThresholder(llr)" + sfx: lambda: T.FixedThresholder(threshold=0.0, input_type=LLR),
+        "AdaptiveThresholder(llr,mean)" + sfx: lambda: T.AdaptiveThresholder(method="mean", input_type=LLR),
         "LLRThresholder": lambda: T.LLRThresholder(),
         "LLRThresholder(scaling=3)": lambda: T.LLRThresholder(confidence_scaling=3.0),
-        "MinDistanceThresholder(llr)": lambda: T.MinDistanceThresholder(input_type=LLR),
-        "HysteresisThresholder(llr)": lambda: T.HysteresisThresholder(input_type=LLR),
-        "WeightedThresholder(llr)": lambda: T.WeightedThresholder(weights=1.0, threshold=0.5, input_type=LLR),
-        "DynamicThresholder(llr)": lambda: T.DynamicThresholder(input_type=LLR),
-        "Ensemble(LLR,Hysteresis,Weighted)": lambda: T.SoftBitEnsembleThresholder([T.LLRThresholder(), T.WeightedThresholder(weights=1.0, input_type=LLR), T.LLRThresholder(confidence_scaling=2.0)], voting="majority"),
-        "Ensemble(weighted,explicit weights,3 members)": lambda: T.SoftBitEnsembleThresholder([T.LLRThresholder(), T.WeightedThresholder(weights=1.0, input_type=LLR), T.LLRThresholder(confidence_scaling=2.0)], voting="weighted", weights=[0.5, 0.3, 0.2]),
+        "MinDistanceThresholder(llr)" + sfx: lambda: T.MinDistanceThresholder(input_type=LLR),
+        "HysteresisThresholder(llr)" + sfx: lambda: T.HysteresisThresholder(input_type=LLR),
+        "WeightedThresholder(llr)" + sfx: lambda: T.WeightedThresholder(weights=1.0, threshold=0.5, input_type=LLR),
+        "DynamicThresholder(llr)" + sfx: lambda: T.DynamicThresholder(input_type=LLR),
+        "Ensemble(LLR,Hysteresis,Weighted)" + sfx: lambda: T.SoftBitEnsembleThresholder([T.LLRThresholder(), T.WeightedThresholder(weights=1.0, input_type=LLR), T.LLRThresholder(confidence_scaling=2.0)], voting="majority"),
+        "Ensemble(weighted,explicit weights,3 members)" + sfx: lambda: T.SoftBitEnsembleThresholder([T.LLRThresholder(), T.WeightedThresholder(weights=1.0, input_type=LLR), T.LLRThresholder(confidence_scaling=2.0)], voting="weighted", weights=[0.5, 0.3, 0.2]),
         "Ensemble(weighted,default weights)": lambda: T.SoftBitEnsembleThresholder([T.LLRThresholder(), T.LLRThresholder(confidence_scaling=2.0)], voting="weighted"),
-        "Ensemble(weighted,explicit weights,4 members)": lambda: T.SoftBitEnsembleThresholder([T.LLRThresholder(), T.LLRThresholder(confidence_scaling=0.5), T.WeightedThresholder(weights=1.0, input_type=LLR), T.LLRThresholder(confidence_scaling=2.0)], voting="weighted", weights=torch.tensor([1.0, 2.0, 3.0, 4.0])),
-        "Ensemble(any)": lambda: T.SoftBitEnsembleThresholder([T.LLRThresholder(), T.LLRThresholder(confidence_scaling=2.0), T.WeightedThresholder(weights=1.0, input_type=LLR)], voting="any"),
-        "Ensemble(all)": lambda: T.SoftBitEnsembleThresholder([T.LLRThresholder(), T.LLRThresholder(confidence_scaling=2.0), T.WeightedThresholder(weights=1.0, input_type=LLR)], voting="all"),
+        "Ensemble(weighted,explicit weights,4 members)" + sfx: lambda: T.SoftBitEnsembleThresholder([T.LLRThresholder(), T.LLRThresholder(confidence_scaling=0.5), T.WeightedThresholder(weights=1.0, input_type=LLR), T.LLRThresholder(confidence_scaling=2.0)], voting="weighted", weights=torch.tensor([1.0, 2.0, 3.0, 4.0])),
+        "Ensemble(any)" + sfx: lambda: T.SoftBitEnsembleThresholder([T.LLRThresholder(), T.LLRThresholder(confidence_scaling=2.0), T.WeightedThresholder(weights=1.0, input_type=LLR)], voting="any"),
+        "Ensemble(all)" + sfx: lambda: T.SoftBitEnsembleThresholder([T.LLRThresholder(), T.LLRThresholder(confidence_scaling=2.0), T.WeightedThresholder(weights=1.0, input_type=LLR)], voting="all"),
         "llr_to_bits": lambda: FU.llr_to_bits,
         "sign_to_bin(sign)": lambda: (lambda x: FU.sign_to_bin(__import__("torch").sign(x))),
     }
+    if sfx:
+        cons = {k: v for k, v in cons.items() if k.endswith(sfx)}
     return cons
 
 
